@@ -29,17 +29,22 @@ ROne == <<1, 1>>
 RInt(k) == <<k, 1>>
 RAdd(x, y) == IF IsNaN(x) \/ IsNaN(y) THEN NaN
               ELSE IF IsInf(x) \/ IsInf(y) THEN Inf
-              ELSE R(x[1] * y[2] + y[1] * x[2], x[2] * y[2])
+              ELSE LET g == GCD(x[2], y[2])      \* add over the least common denominator (keeps intermediates small)
+                   IN R(x[1] * (y[2] \div g) + y[1] * (x[2] \div g), (x[2] \div g) * y[2])
+\* product of reduced fractions with cross-cancellation first: no intermediate exceeds the (reduced) result
+XMul(a, b, c, e) == IF a = 0 \/ c = 0 THEN <<0, 1>>
+                    ELSE LET g1 == GCD(a, e)  g2 == GCD(c, b)
+                         IN <<(a \div g1) * (c \div g2), (b \div g2) * (e \div g1)>>
 RMul(x, y) == IF IsNaN(x) \/ IsNaN(y) THEN NaN
               ELSE IF IsInf(x) THEN (IF y[1] = 0 THEN NaN ELSE Inf)
               ELSE IF IsInf(y) THEN (IF x[1] = 0 THEN NaN ELSE Inf)
-              ELSE R(x[1] * y[1], x[2] * y[2])
+              ELSE XMul(x[1], x[2], y[1], y[2])
 \* factor division: 0/0 = 0, x/0 = inf
 RDiv(x, y) == IF IsNaN(x) \/ IsNaN(y) THEN NaN
               ELSE IF IsInf(x) THEN (IF IsInf(y) THEN NaN ELSE Inf)
               ELSE IF IsInf(y) THEN RZero
               ELSE IF y[1] = 0 THEN (IF x[1] = 0 THEN RZero ELSE Inf)
-              ELSE R(x[1] * y[2], x[2] * y[1])
+              ELSE XMul(x[1], x[2], y[2], y[1])
 RLe(x, y) == IF IsInf(y) THEN TRUE ELSE IF IsInf(x) THEN FALSE ELSE x[1] * y[2] <= y[1] * x[2]
 
 Assign(dom, S) == {f \in [S -> UNION {ToSet(dom[v]) : v \in S}] : \A v \in S : f[v] \in ToSet(dom[v])}
